@@ -127,16 +127,23 @@ class HookDev(BoboDeviceManager):
         if r is not None and r.active:
             r.fire(pt, BoboDeviceManager.urn.fget(self))
 
+    def _mark(self, step):
+        r = self._rig
+        if r is not None and r.active:
+            r.timeline.append((step, BoboDeviceManager.urn.fget(self)))
+
     @property
     def resets(self):
         self._fire('bs')                       # before the reset counter is read
         v = BoboDeviceManager.resets.fget(self)
+        self._mark('R')
         self._fire('bc')                       # counter read, last_comms not yet
         return v
 
     @property
     def last_comms(self):
         v = BoboDeviceManager.last_comms.fget(self)
+        self._mark('C')
         self._fire('br')                       # last_comms read, the rest not yet
         return v
 
@@ -155,12 +162,14 @@ class HookDev(BoboDeviceManager):
 
     @property
     def last_attempt(self):
+        self._mark('X')
         return BoboDeviceManager.last_attempt.fget(self)
 
     @last_attempt.setter
     def last_attempt(self, v):
         self._fire('ba')                       # bookkeeping done except `last_attempt = now`
         BoboDeviceManager.last_attempt.fset(self, v)
+        self._mark('T')
 
 
 class Rig:
@@ -178,6 +187,7 @@ class Rig:
         self.active = False
         self.sched = {}
         self.fired = []
+        self.timeline = []
         self.now_decision = 0
         self.post = {}
         self.err = {}
@@ -215,6 +225,7 @@ class Rig:
             for (frm, mtype, flags) in evs:
                 self.incoming(frm, mtype, flags)
                 self.fired.append((pt, urn, frm, mtype, flags, len(self.wire)))
+                self.timeline.append(('in', frm, flags))
         finally:
             self.active = True
 
@@ -244,6 +255,7 @@ class Rig:
         self.clock_reads = 0
         self.sched = {}
         self.fired = []
+        self.timeline = []
         for (pt, urn, frm, mtype, flags) in mid:
             self.sched.setdefault(('end', None) if pt == 'end' else (pt, urn), []).append((frm, mtype, flags))
         self.t._thread_closed = False
@@ -296,36 +308,28 @@ def expected_type(cfg, c, a, q_empty, stash):
     return None                       # in contact, nothing to say
 
 
-def reset_positions(self_urn, before, wire, fired):
-    """where, relative to the outgoing thread's steps for device u, did the listener handle a RESET from u?
-    Positions on one axis: device k of the decision phase (dict order, self skipped):  bs=4k  R  bc=4k+1  C(last_comms read)
-    br=4k+2  X(rest read, decision);  entry m of the send phase: bp=B+4m  P  ds=B+4m+1  K(contact recorded)  ba=B+4m+2
-    T(last_attempt written);  end = +inf.  Returns {u: [positions of RESETs received from u]}, and pos_of(u, step)."""
+def reset_positions(self_urn, before, timeline):
+    """where, relative to the outgoing thread's own accesses of device u, did the listener handle a RESET from u?
+    `timeline` is the order in which things really happened in this pass: ('R'|'C'|'X'|'T', u) = the outgoing thread read
+    u's reset counter / read u's last_comms / read u's last_attempt / wrote u's last_attempt; ('in', u, flags) = the
+    listener handled a message from u.  Returns {u: [timeline indices of RESETs received from u]} and pos_of(u, step)
+    (the index of the FIRST such access in the pass; +inf if it never happened)."""
     others = [u for u in before if u != self_urn]
-    base = 4 * len(others)
-    dec_idx = {u: k for k, u in enumerate(others)}
-    ent_idx = {w[0]: m for m, w in enumerate(wire)}
-    off = {'bs': 0, 'bc': 1, 'br': 2, 'bp': 0, 'ds': 1, 'ba': 2}
     resets = {u: [] for u in others}
-    for (pt, urn, frm, mtype, flags, _) in fired:
-        if flags & 1 != 1 or frm not in resets:
-            continue
-        if pt == 'end':
-            q = float('inf')
-        elif pt in ('bs', 'bc', 'br'):
-            q = 4 * dec_idx[urn] + off[pt]
+    first = {}
+    for k, ev in enumerate(timeline):
+        if ev[0] == 'in':
+            if ev[2] & 1 == 1 and ev[1] in resets:
+                resets[ev[1]].append(k)
         else:
-            q = base + 4 * ent_idx[urn] + off[pt]
-        resets[frm].append(q)
+            first.setdefault((ev[1], ev[0]), k)
 
     def pos_of(u, step):
-        if step in ('R', 'C', 'X'):
-            return 4 * dec_idx[u] + {'R': 0.5, 'C': 1.5, 'X': 2.5}[step]
-        return base + 4 * ent_idx[u] + {'P': 0.5, 'K': 1.5, 'T': 2.5}[step]
+        return first.get((u, step), float('inf'))
     return resets, pos_of
 
 
-def oracle_pass(case, k, cfg, self_urn, before, qbefore, now, snap, outcomes, wire, after, qafter_len, fired=()):
+def oracle_pass(case, k, cfg, self_urn, before, qbefore, now, snap, outcomes, wire, after, qafter_len, fired=(), timeline=()):
     """returns [(sig, what)] for one pass of the real loop (possibly with listener steps inside the pass)."""
     bad = []
     sent = {}
@@ -338,7 +342,7 @@ def oracle_pass(case, k, cfg, self_urn, before, qbefore, now, snap, outcomes, wi
         bad.append(('wire-order', f"pass {k}: messages not in device order: {[w[0] for w in wire]}"))
     if bad:
         return bad
-    resets, pos_of = reset_positions(self_urn, before, wire, fired)
+    resets, pos_of = reset_positions(self_urn, before, timeline)
     q_empty = len(qbefore) == 0
     item = qbefore[0] if qbefore else [[], [], []]
     any_sync = False
@@ -528,16 +532,17 @@ def run_case(case):
             qbefore = rig.queue_ids()
             wire = rig.one_pass(now, snap, outcomes, mid)
             fired = list(rig.fired)
+            timeline = list(rig.timeline)
             after = rig.fields()
             k += 1
             if now < cfg[1]:
                 all_late = False
-            pbad = oracle_pass(case, k, cfg, self_urn, before, qbefore, now, snap, outcomes, wire, after, rig.t._queue_outgoing.qsize(), fired)
+            pbad = oracle_pass(case, k, cfg, self_urn, before, qbefore, now, snap, outcomes, wire, after, rig.t._queue_outgoing.qsize(), fired, timeline)
             bad += pbad
             if rig.clock_reads != 1 + len(wire):
                 bad.append(('clock-reads', f"pass {k}: {rig.clock_reads} clock readings for {len(wire)} sends"))
             if not any(sig in ('wire-duplicate', 'wire-order') for sig, _ in pbad):
-                resets, pos_of = reset_positions(self_urn, before, wire, fired)
+                resets, pos_of = reset_positions(self_urn, before, timeline)
                 sent = {w[0]: w for w in wire}
                 for u in logs:
                     rq = resets[u]
